@@ -150,13 +150,17 @@ def coordinate_valued(prog, fi: FuncInfo, e: ast.AST, depth: int = 0, _seen=None
     return False
 
 
-def check_no_truthiness_on_coordinates(prog, chk, rule: str, modules: Iterable[str]) -> int:
+def check_no_truthiness_on_coordinates(prog, chk, rule: str, modules: Iterable[str], valued=None, what: str = "an anchor coordinate",
+                                       only_functions=None) -> int:
     """0 is a legitimate coordinate: a coordinate is never dropped / defaulted by a
     truthiness test (filter(None, ...), `if v`, `v or d`, `not v`)."""
     n = 0
     mods = set(modules)
+    valued = valued or coordinate_valued
     for fi in prog.ix.functions.values():
         if fi.module.name not in mods:
+            continue
+        if only_functions is not None and not only_functions(fi):
             continue
         for node in A.body_nodes(fi.node):
             tested = []
@@ -175,9 +179,9 @@ def check_no_truthiness_on_coordinates(prog, chk, rule: str, modules: Iterable[s
                 if isinstance(t, (ast.Compare, ast.BoolOp, ast.UnaryOp)) or (isinstance(t, ast.Call) and not (isinstance(node, ast.Call))):
                     continue
                 n += 1
-                if coordinate_valued(prog, fi, t):
+                if valued(prog, fi, t):
                     chk.ob(rule, f"{fi.short}|{A.keytext(fi.node, node)[:70]}", False, where(fi, node),
-                           message=f"{fi.short}: an anchor coordinate is tested by truthiness (`{T(node, 60)}`): a coordinate of 0 is dropped / replaced "
-                                   f"although it is a legitimate position")
-    chk.ob(rule, "no anchor coordinate is tested by truthiness", True, "", detail=f"{n} truthiness tests examined in {sorted(m.rsplit('.', 1)[-1] for m in mods)}", nontrivial=False)
+                           message=f"{fi.short}: {what} is tested by truthiness (`{T(node, 60)}`): a value of 0 is dropped / replaced "
+                                   f"although it is a legitimate value")
+    chk.ob(rule, f"no {what.split(' ', 1)[-1]} is tested by truthiness", True, "", detail=f"{n} truthiness tests examined in {sorted(m.rsplit('.', 1)[-1] for m in mods)}", nontrivial=False)
     return n
